@@ -131,8 +131,8 @@ def rules(ctx, db):
                     p = op_place(o)
                     if p is not None:
                         locs, cr, places = data_deps(f, p["l"])
-                        if any(any(isinstance(e, list) and e[0] == "f" and e[2] == "max_buffer_size" for e in pl["p"]) for pl in places) or \
-                                any(isinstance(e, list) and e[0] == "f" and e[2] == "max_buffer_size" for e in p["p"]):
+                        if any(any(isinstance(e, list) and e[0] == "f" and e[2].endswith("max_buffer_size") for e in pl["p"]) for pl in places) or \
+                                any(isinstance(e, list) and e[0] == "f" and e[2].endswith("max_buffer_size") for e in p["p"]):
                             cmpb.append(bi)
         ctx.ob("R3", "read-limit-before-growth", bool(cmpb) and all(any(f.cfg.dominates(c, b) for c in cmpb) for b in rv),
                "the read buffer's size limit is compared before reserve_exact grows it", f)
@@ -151,8 +151,8 @@ def rules(ctx, db):
                     p = op_place(o)
                     if p is not None:
                         locs, cr, places = data_deps(f, p["l"])
-                        if any(any(isinstance(e, list) and e[0] == "f" and e[2] == "max_buffer_size" for e in pl["p"]) for pl in places) or \
-                                any(isinstance(e, list) and e[0] == "f" and e[2] == "max_buffer_size" for e in p["p"]):
+                        if any(any(isinstance(e, list) and e[0] == "f" and e[2].endswith("max_buffer_size") for e in pl["p"]) for pl in places) or \
+                                any(isinstance(e, list) and e[0] == "f" and e[2].endswith("max_buffer_size") for e in p["p"]):
                             cmpb.append(bi)
         ctx.ob("R3", "write-limit-before-growth", bool(cmpb) and all(any(f.cfg.dominates(c, b) for c in cmpb) for b in ex),
                "the write buffer's size limit is compared before bytes are appended", f)
